@@ -78,7 +78,7 @@ func runC05(r *Run) {
 	must(err)
 	defer e.val.Close()
 
-	signers := []string{"issuer", "issuer+self", "deleg", "deleg-noembed", "deleg-noeku", "deleg-absent-eku", "deleg-any-eku", "client", "client+embed", "stranger", "stranger+embed",
+	signers := []string{"issuer", "issuer+self", "deleg", "deleg-noembed", "deleg-noeku", "deleg-absent-eku", "deleg-any-eku", "client+embed+rid-issuer", "absent-eku+embed+rid-issuer", "client", "client+embed", "stranger", "stranger+embed",
 		"sibling", "sibling-deleg", "deleg-cert-stranger-sig", "deleg+issuer-embedded-second"}
 	var cases []c05Case
 	for _, iss := range []string{"root", "inter", "leafski"} {
@@ -90,6 +90,11 @@ func runC05(r *Run) {
 					}
 					cases = append(cases, c05Case{Signer: sg, Serial: ser, Status: st, Issuer: iss})
 				}
+			}
+		}
+		for _, sg := range []string{"client+embed+rid-issuer", "absent-eku+embed+rid-issuer"} {
+			for _, st := range []string{"good", "revoked"} {
+				cases = append(cases, c05Case{Signer: sg, Serial: "this", Status: st, Extra: "keyhash", Issuer: iss})
 			}
 		}
 		for _, sg := range []string{"issuer", "deleg", "stranger"} {
@@ -176,6 +181,11 @@ func (e *c05Env) signer(name string, leaf *Leaf, issuer, deleg *CA) c05Signer {
 		return c05Signer{name, e.delegAbsentEKU.Cert, e.delegAbsentEKU.Key, []*x509.Certificate{e.delegAbsentEKU.Cert}, false}
 	case "deleg-any-eku":
 		return c05Signer{name, e.delegAny.Cert, e.delegAny.Key, []*x509.Certificate{e.delegAny.Cert}, false}
+	case "client+embed+rid-issuer":
+		// the responder id names the issuer, the signature is the client's, whose certificate is embedded first
+		return c05Signer{name, issuer.Cert, leaf.Key, []*x509.Certificate{leaf.Cert}, false}
+	case "absent-eku+embed+rid-issuer":
+		return c05Signer{name, issuer.Cert, e.delegAbsentEKU.Key, []*x509.Certificate{e.delegAbsentEKU.Cert, issuer.Cert}, false}
 	case "client":
 		return c05Signer{name, leaf.Cert, leaf.Key, nil, false}
 	case "client+embed":
